@@ -91,7 +91,7 @@ CaseCapB ==
     [op |-> "c19capb", c |-> c, ec |-> ec, o |-> o, eo |-> eo,
      cc |-> CapContainsCap(c, ec, o, eo), rc |-> CapContainsCap(o, eo, c, ec),
      x |-> CapIntersects(c, ec, o, eo),
-     ix |-> CapInteriorIntersects(c, ec, o, eo),
+     ix |-> CapInteriorIntersects(c, ec, o, eo), clamp |-> CapClampCase(c, ec, o, eo),
      ur |-> CapUnionAng24(c, ec, o, eo), ar |-> CapAddCapAng12(c, ec, o, eo),
      pts |-> [i \in 1..Len(DirSeq) |->
                 LET p == DirSeq[i] IN
